@@ -200,6 +200,29 @@ def _check(ops, impl, want_builder):
                     return where + "default module panicked"
                 pending = (n, [[]], out)
             continue
+        if t[0] == "send-sub-reply" and len(t) == 4 and t[1] in ("native", "lifted"):
+            # one sub-message with reply_on = always: the reply (which succeeds) is told exactly what the module answered —
+            # a recording module's two events (`message`, `rec`) and its data, an accepting module's empty response, Err for
+            # a refusing module — and the transaction succeeds either way; a refused sub-message leaves no storage effect
+            k, h = t[2], t[3]
+            if pending is not None:
+                stale = True
+            slot = EXEC_KINDS.get(k)
+            if slot is None or slot == "wasm" or (k == "custom" and t[1] == "lifted"):
+                return where + "malformed send-sub-reply accepted"
+            mode, tag = cfg.get(slot, ("default", 0))
+            sender = {"native": "cn", "lifted": "cl"}[t[1]]
+            if out != "ok":
+                return where + "the failure of a sub-message sent with reply_on always and caught by a succeeding reply must not fail the transaction"
+            if mode == "rec":
+                seen = "ok/message+rec/" + (slot + str(tag)).encode().hex()
+                want = ["%s#%d:%s:%s:%s" % (slot, tag, EXEC_ENTRY.get(k, "exec"), sender, h), "wasm#8:reply:-:" + seen]
+                pending = (n, [want], "ok")
+            elif mode == "acc":
+                pending = (n, [["wasm#8:reply:-:ok//~"]], "ok")
+            else:
+                pending = (n, [["wasm#8:reply:-:err"]], "query-only")
+            continue
         if t[0] == "query-sub" and len(t) >= 4 and t[1] in ("native", "lifted"):
             # queries issued by a contract from inside one execute call: each one reaches its module, repeats included
             if pending is not None:
@@ -286,7 +309,7 @@ def check_builds(builds):
             if op in first and first[op] != want:
                 return "after build %s: `%s` gives `%s`, supplied/default component says `%s`" % (sorted(cfg.items()), op, first[op], want)
         if obs and obs[0][0] in ("block", "storage-dump", "init-count", "api-prefix", "wasm-gen"):
-            k = next((i for i, (op, _) in enumerate(obs) if op.split()[0] in ("send-top", "send-sub", "send-sub-from", "sudo")), len(obs))
+            k = next((i for i, (op, _) in enumerate(obs) if op.split()[0] in ("send-top", "send-sub", "send-sub-from", "send-sub-reply", "sudo")), len(obs))
             for op, out in obs[:k]:
                 if op == "storage-dump":
                     want = {"696e6974": "01"}
